@@ -22,10 +22,40 @@ type lifePlugin struct {
 	cfgMask atomic.Int32 // what the Configure hook returns (0 = everything implemented; only event 1 is)
 	cfgs    atomic.Int32
 	syncs   atomic.Int32
+
+	cfgDelayMs  atomic.Int64 // the Configure hook takes this long
+	cfgReturned atomic.Int32 // Configure hooks that have returned
+	// the stub, for the handlers to call its exported read-only accessors as a plugin may (set once after stub.New)
+	st         atomic.Value // stub.Stub
+	accessed   atomic.Int32 // accessor calls that returned
+	accessBad  atomic.Value // string: an accessor returned something else than the runtime sent
+	wantReqMs  atomic.Int64
+	wantRegMs  atomic.Int64
+	inAccessor atomic.Int32 // accessor calls under way (a call that never returns stays counted)
+}
+
+// readTimeouts does what a plugin may do in any handler: ask the stub for the time-outs the runtime sent.
+func (p *lifePlugin) readTimeouts(where string) {
+	st, _ := p.st.Load().(stub.Stub)
+	if st == nil {
+		return
+	}
+	p.inAccessor.Add(1)
+	req, reg := st.RequestTimeout(), st.RegistrationTimeout()
+	p.inAccessor.Add(-1)
+	p.accessed.Add(1)
+	if wq, wg := p.wantReqMs.Load(), p.wantRegMs.Load(); wq > 0 && (req.Milliseconds() != wq || reg.Milliseconds() != wg) {
+		p.accessBad.Store(where + ": RequestTimeout()=" + req.String() + " RegistrationTimeout()=" + reg.String())
+	}
 }
 
 func (p *lifePlugin) Configure(ctx context.Context, config, rt, version string) (api.EventMask, error) {
 	p.cfgs.Add(1)
+	defer p.cfgReturned.Add(1)
+	p.readTimeouts("Configure")
+	if d := p.cfgDelayMs.Load(); d > 0 {
+		time.Sleep(time.Duration(d) * time.Millisecond)
+	}
 	if p.failCfg.Load() {
 		return 0, errors.New("scripted configuration failure")
 	}
@@ -34,6 +64,7 @@ func (p *lifePlugin) Configure(ctx context.Context, config, rt, version string) 
 
 func (p *lifePlugin) Synchronize(ctx context.Context, pods []*api.PodSandbox, ctrs []*api.Container) ([]*api.ContainerUpdate, error) {
 	p.syncs.Add(1)
+	p.readTimeouts("Synchronize")
 	return nil, nil
 }
 
@@ -74,6 +105,9 @@ func newRig() (*rig, error) {
 		return nil, err
 	}
 	r.st = st
+	r.pl.st.Store(st)
+	r.pl.wantReqMs.Store(healthyScript().RequestTimeoutMs)
+	r.pl.wantRegMs.Store(healthyScript().RegistrationTimeoutMs)
 	return r, nil
 }
 
@@ -96,6 +130,7 @@ func (r *rig) setBehaviour(b string) {
 	r.unreachable.Store(false)
 	r.pl.failCfg.Store(false)
 	r.pl.cfgMask.Store(0)
+	r.pl.cfgDelayMs.Store(0)
 	switch b {
 	case bUnreachable:
 		r.unreachable.Store(true)
